@@ -60,11 +60,17 @@ func c09(c *Ctx) {
 		return PRng{}
 	}
 	// deterministic choice: smallest key
-	best := func(t tables) PRng {
+	// the range must be one that the *other* document's map would translate differently, so that using the
+	// wrong document's map is visible
+	best := func(t, other tables) PRng {
 		var bk [2]int
 		found := false
 		for k := range t.t2s {
 			if _, ok := t.t2s[[2]int{k[0], k[1] + 1}]; !ok || k[0] < 10 {
+				continue
+			}
+			r := PRng{uint32(k[0]), uint32(k[1]), uint32(k[0]), uint32(k[1] + 1)}
+			if t.mapRangeBack(r) == other.mapRangeBack(r) {
 				continue
 			}
 			if !found || k[0] < bk[0] || (k[0] == bk[0] && k[1] < bk[1]) {
@@ -74,7 +80,11 @@ func c09(c *Ctx) {
 		_ = pick
 		return PRng{uint32(bk[0]), uint32(bk[1]), uint32(bk[0]), uint32(bk[1] + 1)}
 	}
-	mA, mB := best(tA), best(tB)
+	mA, mB := best(tA, tB), best(tB, tA)
+	if mA == (PRng{}) || mB == (PRng{}) {
+		c.mismatch("setup", docA, "no distinguishing range", "a generated range the two maps translate differently", true)
+		return
+	}
 	boiler := PRng{5, 0, 5, 6} // `import "context"` line of the generated file: not mapped
 	plain := PRng{3, 1, 3, 9}
 	answers := []struct {
